@@ -235,3 +235,69 @@ def install_rater_memo(memo):
     get_rater.__wrapped__ = counting.__wrapped__
     nanite.indent.get_rater = get_rater
     _installed["rater_memo"] = True
+
+
+# --------------------------------------------------------------------------
+# HDF5 write seams (C16) and the clock of nanite.rate.io
+# --------------------------------------------------------------------------
+class SimClock:
+    """Simulated clock for nanite.rate.io (the only clock nanite reads)."""
+
+    def __init__(self):
+        self.now = 1_700_000_000.0
+        self.elapsed = 0.0
+
+    def advance(self, dt):
+        self.now += dt
+        self.elapsed += abs(dt)
+
+    def time(self):
+        return self.now
+
+    def ctime(self, secs=None):
+        import time as _t
+        return _t.asctime(_t.gmtime(self.now if secs is None else secs))
+
+
+CLOCK = SimClock()
+
+
+def install_h5_seams():
+    """Class-level wrappers on every h5py call save_hdf5 writes through.
+    They only count / inject while PLAN.phase == "save"."""
+    if _installed.get("h5"):
+        return
+    import h5py
+    import nanite.rate.io as rio
+
+    def wrap(cls, name, seam):
+        real = getattr(cls, name)
+
+        def wrapper(self, *a, **kw):
+            if PLAN.phase != "save":
+                return real(self, *a, **kw)
+            PLAN.hit("h5write")            # fault before the call
+            r = real(self, *a, **kw)
+            PLAN.hit("h5write", when="after")   # lost acknowledgement
+            return r
+
+        wrapper.__wrapped__ = real
+        wrapper.__name__ = name
+        setattr(cls, name, wrapper)
+
+    wrap(h5py.Group, "create_dataset", "create_dataset")
+    wrap(h5py.Group, "create_group", "create_group")
+    wrap(h5py.Group, "require_group", "require_group")
+    wrap(h5py.AttributeManager, "__setitem__", "attr")
+
+    real_init = h5py.File.__init__
+
+    def file_init(self, *a, **kw):
+        if PLAN.phase == "save":
+            PLAN.hit("h5write")
+        return real_init(self, *a, **kw)
+
+    h5py.File.__init__ = file_init
+
+    rio.time = CLOCK
+    _installed["h5"] = True
